@@ -90,10 +90,23 @@ def cases(tier, seed):
                 for cu in shapes:
                     for cs in shapes:
                         shape_trip.append(((su, ss), (None, su, ss), (None, cu, cs)))
+        # one field over-long at one site only (everything else short and equal): refused at that site, never dropped,
+        # wrapped (131072 = 2 * 65536) or replaced by a default
+        over = []
+        for n_ in ((65536, 131072) if tier == "quick" else (65536, 65537, 70000, 131072, 131073)):
+            X = b"x" * n_
+            for pos in range(3):
+                srv = [b"k", b"u", b"s"]; cli = [b"k", b"u", b"s"]
+                srv[pos] = X
+                over.append(((b"u", b"s"), tuple(srv), tuple(cli)))
+                srv = [b"k", b"u", b"s"]; cli[pos] = X
+                over.append(((b"u", b"s"), tuple(srv), tuple(cli)))
+            over.append(((X, b"s"), (b"k", b"u", b"s"), (b"k", b"u", b"s")))
+            over.append(((b"u", X), (b"k", b"u", b"s"), (b"k", b"u", b"s")))
         if tier == "quick":
-            keep = trip[:8] + rnd.sample(trip[8:], 28) + rnd.sample(shape_trip, 27)
+            keep = trip[:8] + rnd.sample(trip[8:], 28) + rnd.sample(shape_trip, 27) + over[si % 2::2]
         else:
-            keep = trip + shape_trip
+            keep = trip + shape_trip + over
         for i, (reg, srv, cli) in enumerate(keep):
             out.append(dict(cross=["login_finish", "srv_login_finish", "srv_reg_start"], cross_limit=60, script=triple, suite=s, seed=seed * 100000 + si * 1000 + i, mode="pattern",
                             params=dict(reg=reg, srv=srv, cli=cli, cred_reg=b"user", cred_login=b"user")))
